@@ -871,7 +871,8 @@ def kind_arity_probes():
 def case_mapping_probes():
     """upCase/downCase over every code point of the ranges case_safe accepts,
     a few hundred code points per program"""
-    ranges = [(0x20, 0x180), (0x370, 0x3d0), (0x400, 0x460), (0x3040, 0x3100), (0x4e00, 0x4e80), (0x9fc0, 0xa000),
+    ranges = [(0x20, 0x180), (0x370, 0x3d0), (0x400, 0x460), (0x2000, 0x2070), (0x3000, 0x3100), (0x4e00, 0x4e80),
+              (0x9fc0, 0xa000),
               (0x1f300, 0x1f650)]
     ranges += [(c, c + 1) for c in range(0x4e80, 0x9fc0, 37)]
     cps = []
@@ -1216,6 +1217,11 @@ def main(argv):
     workdir = tempfile.mkdtemp(prefix='lynat')
     with concurrent.futures.ThreadPoolExecutor(max_workers=os.cpu_count() or 4) as ex:
         reals = list(ex.map(lambda t: run_real(t[1], workdir, t[0]), enumerate(srcs)))
+    if '--keep' in argv:
+        print('programs kept in', workdir)
+    else:
+        import shutil
+        shutil.rmtree(workdir, ignore_errors=True)
     passed = refused_ok = refused_auto = 0
     failures = []
     for p, src, real in zip(probes, srcs, reals):
